@@ -289,19 +289,33 @@ func edgeLeadsStraightTo(from *ssa.BasicBlock, si int, isBad func(*ssa.Return) b
 				return false
 			}
 			cond, pos := normCond(iff.Cond, true)
-			phi, isPhi := cond.(*ssa.Phi)
-			if !isPhi {
+			truth, decided := false, false
+			if phi, isPhi := cond.(*ssa.Phi); isPhi {
+				if v, known := env[phi]; known {
+					truth, decided = constBool(v)
+				}
+			} else if bo, isCmp := cond.(*ssa.BinOp); isCmp && (bo.Op == token.EQL || bo.Op == token.NEQ) {
+				// err := φ(errors.New(..), nil); if err != nil: decided by the operand this path selected
+				var tested ssa.Value
+				if isNilConst(bo.Y) {
+					tested = bo.X
+				} else if isNilConst(bo.X) {
+					tested = bo.Y
+				}
+				if phi, isPhi := tested.(*ssa.Phi); isPhi {
+					if v, known := env[phi]; known {
+						if knownNonNil(v) {
+							truth, decided = bo.Op == token.NEQ, true
+						} else if isNilConst(v) {
+							truth, decided = bo.Op == token.EQL, true
+						}
+					}
+				}
+			}
+			if !decided {
 				return false
 			}
-			v, known := env[phi]
-			if !known {
-				return false
-			}
-			cb, isConst := constBool(v)
-			if !isConst {
-				return false
-			}
-			if cb != pos {
+			if truth != pos {
 				next = 1
 			}
 		default:
@@ -342,6 +356,62 @@ func condLeaves(v ssa.Value) []condRes {
 	}
 	walk(v, false, 0)
 	return out
+}
+
+type namedAtom struct {
+	name  string
+	match func(cond ssa.Value, pos bool) bool
+}
+
+// trueOnlyIf: E6 obligation on a predicate — fn (one boolean result) can yield
+// true only on paths on which every atom holds: each atom is either a guard
+// taken on the way to the return, or the very comparison that is returned
+// (`return a == b && c == d` returns the last comparison under the guards of
+// the others). Shape-independent: if-chains, && chains and early returns agree.
+func (c *Ctx) trueOnlyIf(rule string, fn *ssa.Function, atoms []namedAtom) {
+	c.saw(fnName(fn))
+	var evs []Ev
+	for _, a := range atoms {
+		evs = append(evs, &guardEv{name: a.name, match: a.match})
+	}
+	isRet := func(x ssa.Instruction) bool { _, ok := x.(*ssa.Return); return ok }
+	ex := explore(c.P, fn, 0, evs, isRet)
+	nRet := 0
+	missing := map[string]string{}
+	for _, b := range fn.Blocks {
+		r, ok := b.Instrs[len(b.Instrs)-1].(*ssa.Return)
+		if !ok || len(r.Results) != 1 {
+			continue
+		}
+		nRet++
+		for i, st := range ex.at[r] {
+			v := ex.resolveAt(retVal(r, 0), ex.atSel[r][i])
+			if bv, isConst := constBool(v); isConst && !bv {
+				continue
+			}
+			h := ex.holdsVec(st)
+			for k, a := range atoms {
+				if h[k] {
+					continue
+				}
+				if _, isConst := v.(*ssa.Const); !isConst {
+					if cv, pos := normCond(v, true); a.match(cv, pos) {
+						continue
+					}
+				}
+				if _, seen := missing[a.name]; !seen {
+					missing[a.name] = "a result that may be true is returned without it: " + ex.findTrace(b.Index, st, r)
+				}
+			}
+		}
+	}
+	if nRet == 0 {
+		c.Undec(rule, "returns of "+fnName(fn), "a function with one boolean result", c.P.pos(fn.Pos()), "")
+	}
+	for _, a := range atoms {
+		d, bad := missing[a.name]
+		c.Check(!bad, rule, fmt.Sprintf("atom %q in %s", a.name, fnName(fn)), "the result can be true only when this holds", c.P.pos(fn.Pos()), d)
+	}
 }
 
 // atomRejects: E6 obligation — fn rejects (returns an error / the given bool)
